@@ -59,7 +59,37 @@ def flags : AVP → Nat | .mk _ f _ _ _ => f
 def length : AVP → Nat | .mk _ _ l _ _ => l
 def vendor : AVP → Nat | .mk _ _ _ v _ => v
 def data : AVP → Val | .mk _ _ _ _ d => d
+@[simp] theorem code_mk (c f l v : Nat) (d : Val) : (AVP.mk c f l v d).code = c := rfl
+@[simp] theorem flags_mk (c f l v : Nat) (d : Val) : (AVP.mk c f l v d).flags = f := rfl
+@[simp] theorem length_mk (c f l v : Nat) (d : Val) : (AVP.mk c f l v d).length = l := rfl
+@[simp] theorem vendor_mk (c f l v : Nat) (d : Val) : (AVP.mk c f l v d).vendor = v := rfl
+@[simp] theorem data_mk (c f l v : Nat) (d : Val) : (AVP.mk c f l v d).data = d := rfl
 end AVP
+
+mutual
+/-- structural equality test (the nested type has no derived `DecidableEq`) -/
+def Val.beq : Val → Val → Bool
+  | .str t b, .str t' b' => t == t' && b == b'
+  | .addr b, .addr b' => b == b'
+  | .ip4 b, .ip4 b' => b == b'
+  | .ip6 b, .ip6 b' => b == b'
+  | .fix t n, .fix t' n' => t == t' && n == n'
+  | .time u, .time u' => u == u'
+  | .group as, .group as' => beqL as as'
+  | _, _ => false
+def AVP.beq : AVP → AVP → Bool
+  | .mk c f l v d, .mk c' f' l' v' d' => c == c' && f == f' && l == l' && v == v' && d.beq d'
+def beqL : List AVP → List AVP → Bool
+  | [], [] => true
+  | a :: r, a' :: r' => a.beq a' && beqL r r'
+  | _, _ => false
+end
+
+/-- `r` is a success carrying exactly the AVP list `as` -/
+def okIs (r : Res (List AVP)) (as : List AVP) : Bool :=
+  match r with
+  | .ok x => beqL x as
+  | _ => false
 
 /-- `net.IP.To4`. -/
 def to4 (b : Bytes) : Option Bytes :=
@@ -192,6 +222,15 @@ def decodeLeaf (t : Nat) (p : Bytes) : Res Val :=
       if n < 2147483648 then .ok (.time ((n : Int) + rfc2030)) else .ok (.time ((n : Int) - rfc868))
   else .err "unknown-data-type"
 
+/-- the typed part of `AVP.DecodeFromBytes`: `datatype.Decode` on exactly the payload bytes,
+    then `diam.DecodeGrouped` (given as `rec`) when the dictionary type is Grouped. -/
+def decodePayloadWith (rec : Bytes → Res (List AVP)) (ty : Nat → Nat → Nat)
+    (code flags length vendor : Nat) (payload : Bytes) : Res AVP :=
+  if ty code vendor = T.grouped then
+    (rec payload).mapR (fun as => AVP.mk code flags length vendor (.group as))
+  else
+    (decodeLeaf (ty code vendor) payload).mapR (fun v => AVP.mk code flags length vendor v)
+
 mutual
 /-- `AVP.DecodeFromBytes` (with `datatype.Decode` and `diam.DecodeGrouped`).
     `ty code vendor` is the data type the dictionary resolves for this application. -/
@@ -210,43 +249,28 @@ def decodeAVP (ty : Nat → Nat → Nat) : Nat → Bytes → Res AVP
       match slice data 8 12, sliceFrom data 12 with
       | .ok vb, .ok payload =>
         let vendor := rd vb
-        decodePayload ty fuel code flags length vendor payload
+        decodePayloadWith (decodeAVPs ty fuel) ty code flags length vendor payload
       | .panic p, _ => .panic p
       | _, .panic p => .panic p
       | _, _ => .err "unreachable"
     else
       match sliceFrom data 8 with
-      | .ok payload => decodePayload ty fuel code flags length 0 payload
+      | .ok payload => decodePayloadWith (decodeAVPs ty fuel) ty code flags length 0 payload
       | .panic p => .panic p
       | .err e => .err e
-def decodePayload (ty : Nat → Nat → Nat) : Nat → Nat → Nat → Nat → Nat → Bytes → Res AVP
-  | fuel, code, flags, length, vendor, payload =>
-    let t := ty code vendor
-    if t = T.grouped then
-      match decodeAVPs ty fuel payload with
-      | .ok as => .ok (.mk code flags length vendor (.group as))
-      | .err e => .err e
-      | .panic p => .panic p
-    else
-      match decodeLeaf t payload with
-      | .ok v => .ok (.mk code flags length vendor v)
-      | .err e => .err e
-      | .panic p => .panic p
 /-- `Message.decodeAVPs` / `diam.DecodeGrouped`: the cursor advances by the declared
     Length rounded up to four (`AVP.wireLen`). -/
 def decodeAVPs (ty : Nat → Nat → Nat) : Nat → Bytes → Res (List AVP)
   | 0, b => if b.isEmpty then .ok [] else .err "fuel"
   | fuel+1, b =>
     if b.isEmpty then .ok [] else
-    match decodeAVP ty fuel b with
-    | .ok a =>
-      (match decodeAVPs ty fuel (b.drop (pad4 a.length)) with
-       | .ok r => .ok (a :: r)
-       | .err e => .err e
-       | .panic p => .panic p)
-    | .err e => .err e
-    | .panic p => .panic p
+    (decodeAVP ty fuel b).bindR (fun a =>
+      (decodeAVPs ty fuel (b.drop (pad4 a.length))).mapR (fun r => a :: r))
 end
+
+/-- payload decoding at a given remaining nesting fuel -/
+def decodePayload (ty : Nat → Nat → Nat) (fuel code flags length vendor : Nat) (payload : Bytes) : Res AVP :=
+  decodePayloadWith (decodeAVPs ty fuel) ty code flags length vendor payload
 
 /-! ### Header and message -/
 
@@ -276,9 +300,14 @@ def decodeHeader (b : Bytes) : Res Header :=
         hbh := rd ((b.drop 12).take 4)
         e2e := rd ((b.drop 16).take 4) }
 
+/-- `diam.InvalidStreamID` (`^uint(0)`) -/
+def invalidStream : Nat := 18446744073709551615
+
 structure Msg where
   hdr : Header
   avps : List AVP
+  /-- the stream the message was received on (`Message.stream`) -/
+  stream : Nat := invalidStream
 
 /-- `Message.Len()` -/
 def Msg.len (m : Msg) : Nat := 20 + lenL m.avps
@@ -327,17 +356,25 @@ def newMessage (cmd flags app hbh e2e : Nat) (rnd1 rnd2 : Nat) : Msg :=
 
 /-- `Message.AddAVP` / `Message.NewAVP` (after construction of the AVP): `uint32` length arithmetic. -/
 def Msg.addAVP (m : Msg) (a : AVP) : Msg :=
-  { hdr := { m.hdr with len := (m.hdr.len + a.len) % 4294967296 }, avps := m.avps ++ [a] }
+  { m with hdr := { m.hdr with len := (m.hdr.len + a.len) % 4294967296 }, avps := m.avps ++ [a] }
 
 /-- `Message.InsertAVP` -/
 def Msg.insertAVP (m : Msg) (a : AVP) : Msg :=
-  { hdr := { m.hdr with len := (m.hdr.len + a.len) % 4294967296 }, avps := a :: m.avps }
+  { m with hdr := { m.hdr with len := (m.hdr.len + a.len) % 4294967296 }, avps := a :: m.avps }
 
 /-- `Message.Answer(resultCode)` — after the fix that copies the identifiers. -/
 def Msg.answer (m : Msg) (rc : Nat) (rnd1 rnd2 : Nat) : Msg :=
   let flags := if isRequest m.hdr.flags then m.hdr.flags - 128 else m.hdr.flags
   let nm := newMessage m.hdr.cmd flags m.hdr.app m.hdr.hbh m.hdr.e2e rnd1 rnd2
   let nm := { nm with hdr := { nm.hdr with hbh := m.hdr.hbh, e2e := m.hdr.e2e } }
-  if rc ≠ 0 then nm.addAVP (newAVP 268 64 0 (.fix T.u32 (rc % 4294967296))) else nm
+  let nm := if rc ≠ 0 then nm.addAVP (newAVP 268 64 0 (.fix T.u32 (rc % 4294967296))) else nm
+  { nm with stream := m.stream }
+
+/-- the stream `Message.WriteTo` hands to `MultistreamWriter.WriteStream` -/
+def Msg.writeStream (m : Msg) : Nat := m.stream
+
+/-- `SCTPConn.WriteStream`: the SCTP stream number put into `SndRcvInfo` (`uint16` conversion;
+    `InvalidStreamID` leaves the default stream 0) -/
+def sctpStreamOf (stream : Nat) : Nat := if stream = invalidStream then 0 else stream % 65536
 
 end DV
